@@ -63,6 +63,13 @@ chk("C01", "fault_enumeration",
     "Seeded crash/restart histories of 3-5 rounds against the real store in child processes: each round restarts the store on the same directory, verifies the whole shadow state (every acknowledged document fetched byte-identical, listed by _all_, found by its tokens; every unacknowledged bulk wholly present or wholly absent; no foreign ID; the store came up), ingests more bulks and crashes at the k-th hit of a write-path hook (before/after the docs write, after its fsync - the orphan docs block -, before/after the meta write, after its fsync before the ack) or exits cleanly; after every crash a power-loss variant truncates each file to a seeded length between its fsync-covered length and its size. An offline checker over the hook event log additionally demands docs write < docs fsync < meta write < meta fsync < ack for every acknowledged bulk.",
     "Crash = os.Exit in a hook; power loss = truncation of unsynced tails derived from fsync hook events; directory-entry durability not modelled; hooks sit where MANIFEST.hooks says.", "crash-point and torn-tail fault injection with a shadow-state oracle + offline ordering checker over the hook event log", "DESIGN.md 2/C01")
 
+chk("C08", "fault_enumeration",
+    "Per corpus a dry run of one seal counts the hits of every fault point (each sorted-docs block write/flush, each index block, registry and header write, sync, rename) and crash point (temp files created, mid-write, around each sync/rename, directory sync, publication, meta and docs removal). Then, each from a pristine copy of the pre-seal directory in a fresh process, the k-th hit of each fault point returns an I/O error and the process crashes at the k-th hit of each crash point (followed by truncation of every file no completed sync covers). After two restarts every document must be listed, found by its tokens and fetched byte-identical; an offline checker over the hook event log demands sync-before-rename, sync+rename+dir-sync of the index before any removal of .meta/.docs, and nothing published or removed after an injected fault.",
+    "k is thinned evenly above 12 (quick) / 60 (thorough) hits per point; directory-entry durability not modelled.", "fault and crash-point enumeration with restart verification + offline file-order checker over the hook event log", "DESIGN.md 2/C08")
+chk("C15", "fault_enumeration",
+    "Seeded lifecycle histories on a store with a few-KiB fraction size, a retention limit of 4-8 fractions and a 3 ms maintenance loop (dozens of rotations, background seals and retention deletions per round), crashed at the k-th hit of lifecycle hooks (between the two file creations of a new active fraction, rotation, every rename/remove of sealed and active deletion, retention shift, .frac-cache temp written/renamed, seal publication, release), followed by power-loss variants (unsynced .docs/.meta tails truncated; .frac-cache stale, truncated, corrupt or deleted). A separate verification process with an idle maintenance loop checks after every restart: the store comes up; each bulk wholly served or wholly gone and byte-identical; bulks of one fraction share their fate; served acknowledged bulks form a suffix of the ingestion order; nothing seen gone reappears; fraction lists sampled while running are suffixes of the creation order.",
+    "TotalSize >= 4 x FracSize and paced ingestion (retiring the fraction being written is outside the statement); which hook hit a crash lands on is scheduler dependent.", "crash-point fault injection over lifecycle histories with whole-or-gone / oldest-first oracles", "DESIGN.md 2/C15")
+
 def main():
     claimed = sorted(CHECKS)
     na = [{"property_id": p, "reason": "check not built yet in this session (planned; see DESIGN.md section 2)"} for p in ALL if p not in CHECKS]
